@@ -77,7 +77,7 @@ def run(cmd, cwd=None, timeout=None, env=None, check=True):
     return p
 
 
-def run_resumable(cmd, wd, name, timeout=3 * 3600, max_dead=6):
+def run_resumable(cmd, wd, name, timeout=3 * 3600, max_dead=4):
     """Run a driver that notes the case it is about to execute in <wd>/current.txt. A case that hangs makes the driver stop
     at once (exit 5, "<case>:hang" noted); a case that ends the process with a fatal error (stack overflow ...) is found
     noted. The run is started again with those cases reported as hang / crash instead of executed. A death that cannot be
@@ -89,8 +89,15 @@ def run_resumable(cmd, wd, name, timeout=3 * 3600, max_dead=6):
         if p.returncode == 0:
             return dead
         cur = os.path.join(wd, "current.txt")
-        if not os.path.exists(cur) or len(dead) >= max_dead:
+        if not os.path.exists(cur):
             raise Inconclusive("%s failed (%d):\n%s" % (cmd[1], p.returncode, p.stderr[-3000:]))
+        if len(dead) >= max_dead:
+            # the driver dies at case after case: report the attributed deaths and run nothing else
+            shutil.rmtree(wd, ignore_errors=True)
+            p = run(cmd + ["-crashed", ",".join(dead), "-only-crashed"], timeout=timeout, check=False)
+            if p.returncode != 0:
+                raise Inconclusive("%s failed (%d):\n%s" % (cmd[1], p.returncode, p.stderr[-3000:]))
+            return dead
         c = open(cur).read().strip()
         if not c.endswith(":hang"):
             if "fatal error" not in p.stderr and "panic:" not in p.stderr:
